@@ -267,6 +267,8 @@ bool
 typehasint(struct type *t, unsigned long long i, bool sign)
 {
 	assert(t->prop & PROPINT);
+	if (t->kind == TYPEBOOL || t->kind == TYPEENUM && t->base && t->base->kind == TYPEBOOL)
+		return i <= 1;
 	if (sign && i >= -1ull << 63)
 		return t->u.basic.issigned && i >= -1ull << (t->size << 3) - 1;
 	return i <= 0xffffffffffffffffull >> (8 - t->size << 3) + t->u.basic.issigned;
